@@ -15,7 +15,7 @@ THEOREMS = [
     "Signature.roundtrip_args", "Signature.roundtrip", "Signature.default_alignment",
     "Signature.build_eq_spec", "Signature.valid_always", "Signature.valid_iff_nodup",
     "Signature.duplicate_counterexample", "Signature.build_total", "Signature.overloads_own",
-    "Signature.overloads_displayed", "Signature.render_layout",
+    "Signature.overloads_displayed", "Signature.render_layout", "Signature.parseSig_render_layout",
 ]
 RULE = ("exhaustive: every sequence of <=4 (quick: <=3) parameter items over {name, *name, **name} x with/without "
         "annotation x with/without default, with `/` and bare `*` placed at every position, written as "
